@@ -132,6 +132,23 @@ pub fn name_hist(r: &mut crate::rng::Rng) -> Hist {
         // incl. letters whose lower-case form has another UTF-8 length (İ, Kelvin sign, Ⱥ, ẞ) and Σ (final-sigma contexts)
         name.push(*r.pick(&['a', 'A', '1', '-', '_', '.', 'Æ', 'ǅ', 'İ', 'ᾈ', 'Σ', 'ß', 'é', '\u{212A}', 'Ⱥ', 'ẞ', 'Α', 'σ']));
     }
+    // one name in four: a capital together with any scalar of the blocks where case mappings
+    // are irregular (non-letters inside letter blocks: × ÷ ª º; cased scalars beyond the BMP)
+    if r.chance(1, 4) {
+        let c = match r.below(4) {
+            0 => char::from_u32(0x80 + r.below(0x180) as u32),
+            1 => char::from_u32(0x370 + r.below(0x200) as u32),
+            2 => char::from_u32(*r.pick(&[0x10400u32, 0x104B0, 0x10C80, 0x118A0, 0x16E40, 0x1E900]) + r.below(40) as u32),
+            _ => char::from_u32(0x1E00 + r.below(0x300) as u32),
+        }
+        .unwrap_or('×');
+        let cap = *r.pick(&['É', 'A', 'Ω', '\u{10400}']);
+        name = match r.below(3) {
+            0 => format!("{cap}{c}"),
+            1 => format!("{c}{name}{cap}"),
+            _ => format!("{name}_{c}{cap}"),
+        };
+    }
     let mut calls = vec![];
     if ty == "maven" || r.chance(1, 3) {
         calls.push(Call::Ns(gen::mixed_string(r, 1, 6, 20)));
